@@ -87,7 +87,7 @@ class FactorHistory:
         """
         The latest successful optimisation result for the factor.
         """
-        return [status.result for _, status in self.history if status][0]
+        return [status.result for _, status in self.history if status][-1]
 
     @property
     @history_exception
